@@ -55,7 +55,7 @@ FILTERS = {
 
 
 @contract('C06', 'batch=streaming', variants=[dict(f=k) for k in FILTERS], optional=True, cas=False, no_safety=True,
-          feas_timeout_ms=1000, budget_s=500, max_paths=400, no_crosscheck=True,
+          feas_timeout_ms=1000, budget_s=400, max_paths=400, no_crosscheck=True, timeout_ms=30000,
           functions=sorted({v['cls'] + '._compute_all' for v in FILTERS.values()} | {v['cls'] + '.' + v['upd'] for v in FILTERS.values()}))
 def c_batch(c):
     spec = FILTERS[c.p['f']]
